@@ -872,6 +872,7 @@ pub struct FwdStats {
 	pub disturbed_pairs: u64,
 	pub knowledge_lost: u64,
 	pub reforwards_after_undelivered: u64,
+	pub non_strict_forwards: u64,
 	pub refused_forward_still_pending: u64,
 }
 
@@ -1488,7 +1489,14 @@ impl FwdOracle {
 				// (a) admission, evaluated on the message B actually sent
 				self.stats.admission_checks += 1;
 				self.stats.forwarded += 1;
-				let (base, ppm, delta) = self.policy[chan].ok_or_else(|| fail("harness", "no policy for B's outgoing channel".into()))?;
+				// the policy that applies is that of the channel the sender named in the onion; the library may use any
+				// other channel to the same peer for the HTLC itself (non-strict forwarding), and B's channels may
+				// advertise different policies
+				let named = sim.pays.iter().find(|q| q.hash.0 == p.hash).and_then(|q| q.path_nodes.iter().position(|n| *n == B).and_then(|i| q.path_chans.get(i).cloned())).filter(|c| *c != chan && *c < sim.chans.len() && sim.peer_of(*c, B) == sim.peer_of(chan, B));
+				if named.is_some() {
+					self.stats.non_strict_forwards += 1;
+				}
+				let (base, ppm, delta) = self.policy[named.unwrap_or(chan)].ok_or_else(|| fail("harness", "no policy for B's outgoing channel".into()))?;
 				let ctx = format!(
 					"in: chan {} id {} {} msat expiry {}; out: chan {} id {} {} msat expiry {}; policy base {} ppm {} delta {}",
 					p.up_chan, p.up_id, p.amt_in, p.cltv_in, chan, m.htlc_id, m.amount_msat, m.cltv_expiry, base, ppm, delta
